@@ -361,31 +361,73 @@ struct Case {
     items: Vec<Action>,
     threads: usize,
     shuttle: bool,
+    /// number of distinct `-name` tests evaluated (and failing over to -true) before the actions:
+    /// they take identifier numbers, so the printers' numbers and frame tags grow
+    prefix: usize,
+    /// guard every action with the same `-name` test (a repeated pattern between new printers)
+    guarded: bool,
+}
+
+fn case_tree(c: &Case) -> Expr {
+    let items: Vec<Expr> = c
+        .items
+        .iter()
+        .map(|a| {
+            if c.guarded {
+                // "( -name <own path> -a action )": the pattern is the same text in every clause
+                Expr::or(Expr::and(Expr::Test(Test::Name("p*".into())), Expr::Action(a.clone())), Expr::Test(Test::True))
+            } else {
+                Expr::Action(a.clone())
+            }
+        })
+        .collect();
+    let mut it = items.into_iter();
+    let mut tree = it.next().unwrap();
+    for x in it {
+        tree = Expr::and(tree, x);
+    }
+    if c.prefix > 0 {
+        let mut pre = Expr::Test(Test::Name("m0".into()));
+        for k in 1..c.prefix {
+            pre = Expr::or(pre, Expr::Test(Test::Name(format!("m{k}"))));
+        }
+        pre = Expr::or(pre, Expr::Test(Test::True));
+        tree = Expr::and(pre, tree);
+    }
+    tree
 }
 
 fn show(items: &[Action]) -> String {
     chain(items).show()
 }
 
+fn show_case(c: &Case) -> String {
+    if c.prefix == 0 && !c.guarded {
+        show(&c.items)
+    } else {
+        format!("[{} leading name tests{}] {}", c.prefix, if c.guarded { ", every action guarded by -name 'p*'" } else { "" }, show(&c.items))
+    }
+}
+
 fn check(case: &Case, acc: &mut Acc) {
-    let wit = || json!({"kind": "c16", "actions": case.items, "threads": case.threads});
-    let tree = chain(&case.items);
+    let wit = || json!({"kind": "c16", "actions": case.items, "threads": case.threads, "prefix": case.prefix, "guarded": case.guarded});
+    let tree = case_tree(case);
     let real = conv::expr_to_real(&tree).unwrap();
     let (text, io) = match compile_render(&real, &subject::options(false, None), "/dev") {
         C::Ok(v) => v,
         C::Err(e) => {
-            acc.violate(Violation::new("C16:compile-refused", format!("{}: {e}", show(&case.items)), wit()));
+            acc.violate(Violation::new("C16:compile-refused", format!("{}: {e}", show_case(case)), wit()));
             return;
         }
         C::Panic(p) => {
-            acc.violate(Violation::new(format!("C16:panic:{}", panic_site(&p)), format!("{}: {p}", show(&case.items)), wit()));
+            acc.violate(Violation::new(format!("C16:panic:{}", panic_site(&p)), format!("{}: {p}", show_case(case)), wit()));
             return;
         }
     };
     let forms = match read_all(&text) {
         Ok(f) => f,
         Err(e) => {
-            acc.violate(Violation::new("C16:unreadable", format!("{}: {e}", show(&case.items)), wit()));
+            acc.violate(Violation::new("C16:unreadable", format!("{}: {e}", show_case(case)), wit()));
             return;
         }
     };
@@ -397,13 +439,13 @@ fn check(case: &Case, acc: &mut Acc) {
         let mut it = Interp::new(&mut host);
         it.capture_thunk = true;
         if let Err(e) = it.run_forms(&forms) {
-            acc.violate(Violation::new("C16:policy-runtime-failure", format!("{}: {e:?}", show(&case.items)), wit()));
+            acc.violate(Violation::new("C16:policy-runtime-failure", format!("{}: {e:?}", show_case(case)), wit()));
             return;
         }
         let thunk = match it.captured.clone() {
             Some(t) => t,
             None => {
-                acc.violate(Violation::new("C16:program-shape", format!("{}: no scan call", show(&case.items)), wit()));
+                acc.violate(Violation::new("C16:program-shape", format!("{}: no scan call", show_case(case)), wit()));
                 return;
             }
         };
@@ -412,7 +454,7 @@ fn check(case: &Case, acc: &mut Acc) {
             // (the host is borrowed by the interpreter: slice the step log afterwards)
             marks.push(t);
             if let Err(e) = it.run_thunk(&thunk, t, thread_record(t)) {
-                acc.violate(Violation::new("C16:policy-runtime-failure", format!("{}: {e:?}", show(&case.items)), wit()));
+                acc.violate(Violation::new("C16:policy-runtime-failure", format!("{}: {e:?}", show_case(case)), wit()));
                 return;
             }
             it.host.write(usize::MAX, "<end-of-thread>");
@@ -434,7 +476,7 @@ fn check(case: &Case, acc: &mut Acc) {
         match expected_records(&case.items, &io, &thread_record(t)) {
             Ok(v) => expected.extend(v),
             Err(e) => {
-                acc.violate(Violation::new("C16:destination-table", format!("{}: {e}", show(&case.items)), wit()));
+                acc.violate(Violation::new("C16:destination-table", format!("{}: {e}", show_case(case)), wit()));
                 return;
             }
         }
@@ -444,7 +486,7 @@ fn check(case: &Case, acc: &mut Acc) {
         if let Some(r) = expected.iter().find(|r| !r.ends_with('\n')) {
             acc.violate(Violation::new(
                 "C16:plain-mode-record-not-a-terminated-line",
-                format!("{}: plain output was chosen but a record is {r:?}, which is not a complete terminated line: records of different threads run together on the shared port", show(&case.items)),
+                format!("{}: plain output was chosen but a record is {r:?}, which is not a complete terminated line: records of different threads run together on the shared port", show_case(case)),
                 wit(),
             ));
             return;
@@ -475,7 +517,7 @@ fn check(case: &Case, acc: &mut Acc) {
         }
         acc.violate(Violation::new(
             sig,
-            format!("{} with {} threads: schedule {sched:?} (thread per step) violates '{name}'; shared port then holds {:?}; step programs: {:?}", show(&case.items), case.threads, s.ports[0], progs[0]),
+            format!("{} with {} threads: schedule {sched:?} (thread per step) violates '{name}'; shared port then holds {:?}; step programs: {:?}", show_case(case), case.threads, s.ports[0], progs[0]),
             wit(),
         ));
     }
@@ -485,7 +527,7 @@ fn check(case: &Case, acc: &mut Acc) {
     if bfs.unique_state_count() != dfs.unique_state_count() || bfs.unique_state_count() != own_states {
         acc.violate(Violation::new(
             "C16:engines-disagree-on-state-count",
-            format!("{}: stateright BFS {} / DFS {} / own search {} distinct states", show(&case.items), bfs.unique_state_count(), dfs.unique_state_count(), own_states),
+            format!("{}: stateright BFS {} / DFS {} / own search {} distinct states", show_case(case), bfs.unique_state_count(), dfs.unique_state_count(), own_states),
             wit(),
         ));
         return;
@@ -498,7 +540,7 @@ fn check(case: &Case, acc: &mut Acc) {
                 acc.validated += st.schedules;
                 acc.count("shuttle_schedules", st.schedules);
                 if let Some(f) = st.failures.first() {
-                    acc.violate(Violation::new("C16:policy-runtime-failure", format!("{} under shuttle: {f}", show(&case.items)), wit()));
+                    acc.violate(Violation::new("C16:policy-runtime-failure", format!("{} under shuttle: {f}", show_case(case)), wit()));
                     return;
                 }
                 for f in &st.finals {
@@ -506,7 +548,7 @@ fn check(case: &Case, acc: &mut Acc) {
                     if !splits_into(f, &mut exp) {
                         acc.violate(Violation::new(
                             "C16:torn-or-mixed-records",
-                            format!("{} with {} threads under shuttle: the shared port ended as {f:?}, which is not a sequence of the whole records {:?}", show(&case.items), case.threads, sys.expected),
+                            format!("{} with {} threads under shuttle: the shared port ended as {f:?}, which is not a sequence of the whole records {:?}", show_case(case), case.threads, sys.expected),
                             wit(),
                         ));
                         return;
@@ -515,19 +557,19 @@ fn check(case: &Case, acc: &mut Acc) {
                 if st.finals != model_finals {
                     acc.violate(Violation::new(
                         "C16:model-does-not-conform-to-code",
-                        format!("{} with {} threads: final port contents under shuttle ({}) differ from the model's terminal states ({})", show(&case.items), case.threads, st.finals.len(), model_finals.len()),
+                        format!("{} with {} threads: final port contents under shuttle ({}) differ from the model's terminal states ({})", show_case(case), case.threads, st.finals.len(), model_finals.len()),
                         wit(),
                     ));
                 }
             }
             Err(e) => {
                 let sig = if e.contains("deadlock") { "C16:deadlock" } else { "C16:shuttle-execution-failed" };
-                acc.violate(Violation::new(sig, format!("{} with {} threads under shuttle: {e}", show(&case.items), case.threads), wit()));
+                acc.violate(Violation::new(sig, format!("{} with {} threads under shuttle: {e}", show_case(case), case.threads), wit()));
             }
         }
     }
     if acc.samples.len() < 4 {
-        acc.sample(json!({"actions": show(&case.items), "threads": case.threads, "step_program_of_thread_0": format!("{:?}", progs[0]), "distinct_final_port_contents": model_finals.len()}));
+        acc.sample(json!({"actions": show_case(case), "threads": case.threads, "step_program_of_thread_0": format!("{:?}", progs[0]), "distinct_final_port_contents": model_finals.len()}));
     }
 }
 
@@ -576,7 +618,21 @@ fn cases(tier: Tier) -> Vec<Case> {
                 (Tier::Thorough, 3, 1) => true,
                 _ => false,
             };
-            out.push(Case { items: p.clone(), threads, shuttle });
+            out.push(Case { items: p.clone(), threads, shuttle, prefix: 0, guarded: false });
+        }
+    }
+    // larger identifier numbers and repeated patterns (model only)
+    let fa = framed_actions();
+    for prefix in [0usize, 4, 5, 8, 14, 15, 40, 130] {
+        for guarded in [false, true] {
+            if prefix == 0 && !guarded {
+                continue;
+            }
+            for (a, b) in [(0usize, 1usize), (1, 2), (1, 0), (2, 3), (4, 1)] {
+                out.push(Case { items: vec![fa[a].clone(), fa[b].clone()], threads: 2, shuttle: false, prefix, guarded });
+            }
+            let pa = plain_actions();
+            out.push(Case { items: vec![pa[0].clone(), pa[1].clone()], threads: 2, shuttle: false, prefix, guarded });
         }
     }
     out
@@ -609,7 +665,7 @@ pub fn run(ctx: &Ctx) -> i32 {
             level: "model_checking",
             exhaustive: true,
             rule: "step programs (lock / write / unlock) are extracted from the emitted policy by executing it in the runtime model under a recording host; stateright explores every interleaving (BFS and DFS, state counts compared, and compared with an independent search) and checks: no deadlock, mutexes released by their holder, and at every terminal state the shared port splits into exactly the whole records the threads must deliver (frames payload/separator/tag computed from the reference side and io_map(), or terminated lines); the same emitted program is then run by the interpreter on shuttle threads with real blocking mutexes under shuttle's exhaustive DFS scheduler, and the set of final port contents must equal the model's set of terminal states; states = distinct model states, traces_validated_against_impl = shuttle schedules executed".into(),
-            bound: "every AND chain of 1..2 printer actions over {-print, -printf '%P\\n'} (plain) and {-print0, -fprint f, -fprintf g '%P', -print} (framed), every plain chain of 3..4 actions and every framed pair followed by -print0, x 2 and 3 threads (3 threads up to 3 calls) in the model; under shuttle: 2 threads x 1 call all, 2 x 2 a subset in quick / all in thorough, 3 x 1 in thorough".into(),
+            bound: "every AND chain of 1..2 printer actions over {-print, -printf '%P\\n'} (plain) and {-print0, -fprint f, -fprintf g '%P', -print} (framed), every plain chain of 3..4 actions and every framed pair followed by -print0, x 2 and 3 threads (3 threads up to 3 calls) in the model; pairs of actions behind 4..130 leading name tests and / or with every action guarded by one repeated name test (identifier numbers and frame tags up to 260) for 2 threads; under shuttle: 2 threads x 1 call all, 2 x 2 a subset in quick / all in thorough, 3 x 1 in thorough".into(),
             assumptions: vec![
                 "make-printer = (lambda (s) (with-mutex mutex (display s port) (if term (write-char term port)))); display / write-char of one string or character is one atomic port write".into(),
                 "each thread runs the policy thunk once, on its own file record".into(),
@@ -623,7 +679,9 @@ pub fn replay(w: &Value) -> Vec<Violation> {
     let mut acc = Acc::new();
     if let Ok(items) = serde_json::from_value::<Vec<Action>>(w["actions"].clone()) {
         let threads = w["threads"].as_u64().unwrap_or(2) as usize;
-        let c = Case { shuttle: threads * items.len() <= 3 || (threads == 2 && items.len() == 2), items, threads };
+        let prefix = w["prefix"].as_u64().unwrap_or(0) as usize;
+        let guarded = w["guarded"].as_bool().unwrap_or(false);
+        let c = Case { shuttle: prefix == 0 && !guarded && (threads * items.len() <= 3 || (threads == 2 && items.len() == 2)), items, threads, prefix, guarded };
         check(&c, &mut acc);
     }
     acc.violations.into_values().map(|(v, _)| v).collect()
